@@ -55,7 +55,7 @@ CAPTURE = Capture()
 class ModelECU(Peer):
     """Line-protocol ECU. `respond(session, req) -> (reply|None, new_session)` is supplied by the check.
 
-    Optional model attributes:  start_session (session the ECU is in when the scanner connects),  latency (s, every reply is sent that much later),  s3 (s, session falls back to the default
+    Optional model attributes:  start_session (session the ECU is in when the scanner connects),  reset_delay (s, a positively answered ECUReset takes effect that much later),  latency (s, every reply is sent that much later),  s3 (s, session falls back to the default
     session when no request was answered for that long),  down_after(req) -> seconds the ECU is down (silent, then default
     session) after receiving `req`."""
 
@@ -68,6 +68,10 @@ class ModelECU(Peer):
         self.s3 = getattr(model, "s3", None)
         self.last_answer = 0.0
         self.down_until = -1.0
+
+    def _delayed_reset(self) -> None:
+        self.session = 1
+        self.last_answer = self.conn.loop.time()
 
     def on_data(self, data: bytes) -> None:
         self.rx += data
@@ -92,7 +96,13 @@ class ModelECU(Peer):
             if d:
                 self.down_until = now + d
                 continue
-            reply, self.session = self.model.respond(self.session, req)
+            reply, new_session = self.model.respond(self.session, req)
+            delay = float(getattr(self.model, "reset_delay", 0.0) or 0.0)
+            if delay > 0 and req[0] == 0x11 and reply is not None and reply[0] == 0x51:
+                # the ECU acknowledges the reset and performs it a moment later
+                loop.call_later(delay, self._delayed_reset)
+            else:
+                self.session = new_session
             if reply is not None or (req[0] == 0x3E):
                 self.last_answer = now
             if reply is not None:
